@@ -4,6 +4,7 @@ package main
 // who calls whom (CG, static + resolved dispatch), spawn / timer / blocking-operation inventories (EFFECT).
 
 import (
+	"go/constant"
 	"go/token"
 	"go/types"
 	"sort"
@@ -181,6 +182,46 @@ func addrUses(v ssa.Value, seen map[ssa.Value]bool) (read, write, escape bool) {
 	return
 }
 
+// zeroInitOnly: the field address belongs to an object allocated right here and is used only to store the field
+// type's zero value (a composite literal that spells out its zero fields).
+func zeroInitOnly(fa *ssa.FieldAddr) bool {
+	if _, fresh := fa.X.(*ssa.Alloc); !fresh {
+		return false
+	}
+	refs := fa.Referrers()
+	if refs == nil || len(*refs) == 0 {
+		return false
+	}
+	for _, r := range *refs {
+		switch x := r.(type) {
+		case *ssa.DebugRef:
+		case *ssa.Store:
+			k, isConst := x.Val.(*ssa.Const)
+			if x.Addr != fa || !isConst || !isZeroConst(k) {
+				return false
+			}
+		default:
+			return false
+		}
+	}
+	return true
+}
+
+func isZeroConst(k *ssa.Const) bool {
+	if k.Value == nil {
+		return true
+	}
+	switch k.Value.Kind() {
+	case constant.Bool:
+		return !constant.BoolVal(k.Value)
+	case constant.String:
+		return constant.StringVal(k.Value) == ""
+	case constant.Int, constant.Float, constant.Complex:
+		return constant.Sign(k.Value) == 0
+	}
+	return false
+}
+
 func BuildIndex(p *Program) *Index {
 	ix := &Index{P: p, Accesses: map[FieldRef][]Access{}, Callers: map[*ssa.Function][]*ssa.Function{}, Callees: map[*ssa.Function][]*ssa.Function{}}
 	for _, fn := range p.Funcs {
@@ -196,6 +237,9 @@ func BuildIndex(p *Program) *Index {
 						continue
 					}
 					r, w, _ := addrUses(x, map[ssa.Value]bool{})
+					if w && zeroInitOnly(x) {
+						w = false // spelling out a fresh object's zero value is not a write
+					}
 					if w {
 						ix.Accesses[fr] = append(ix.Accesses[fr], Access{fn, in, true})
 					}
